@@ -422,6 +422,39 @@ func checkC16(e *Engine, r *Report) {
 				okGate = false
 			}
 		}
+		// every message is inspected: next() is reached only through the exit edge of the message loop (a `return next(…)` from
+		// inside the loop — e.g. for the first non-vesting message — leaves the messages after it unchecked)
+		{
+			okAll := false
+			nexts := callsIn(dec, false, func(c ssa.CallInstruction) bool { return isNextCall(dec, c) })
+			for _, l := range loopsOf(dec) {
+				hi, isIf := lastIf(l.Header)
+				if !isIf {
+					continue
+				}
+				exit := -1
+				for k, sc := range l.Header.Succs {
+					if !l.Body[sc] {
+						exit = k
+					}
+				}
+				if exit < 0 {
+					continue
+				}
+				okAll = len(nexts) > 0
+				ethG, _ := laneGuards(dec)
+				for _, nc := range nexts {
+					// next() calls of the foreign (Ethereum) lane fall straight through and are not subject to the scan
+					if len(ethG) > 0 && mustPass(dec, nc, ethG) {
+						continue
+					}
+					if !mustPass(dec, nc, []Guard{{If: hi, Survive: exit}}) {
+						okAll = false
+					}
+				}
+			}
+			r.Check(okAll, "993c › every message inspected before next()", e.Pos(dec.Pos()), "next() only after the message loop is exhausted", "the vesting authorisation decorator can hand the transaction to next() from inside its message loop: a vesting-account creation message placed after another message is never checked against the proof store")
+		}
 		r.Check(okGate, "993c › vesting message passes only with a proof", e.Pos(hc.Pos()), "no proof ⇒ error; next()/next message only after HasProof == true", "a vesting-account creation message can pass the ante handler without an EOA proof for its target")
 		// authz screen inspects every message (shared with C07-R4)
 		ok, why := authzScreenInspectsAll(e)
